@@ -1,6 +1,10 @@
-(** * Model of [SampledLFU] (src/lfu/sampled.rs): exact cost accounting over [Z]
-    (the i64 wrap-around is outside the model: costs are assumed far from the i64 range). *)
+(** * Model of [SampledLFU] (src/lfu/sampled.rs): cost accounting in i64 arithmetic that wraps
+    ([wrapping_add] / [wrapping_sub]): costs and the capacity are arbitrary i64 values, every sum and
+    difference is taken modulo 2^64 into the signed range ([w64]). *)
 From VF Require Import Base.
+
+(** two's complement wrap of an integer into the i64 range *)
+Definition w64 (z : Z) : Z := (z + 9223372036854775808) mod 18446744073709551616 - 9223372036854775808.
 
 Record sampled := mkSampled {
   smax : Z;
@@ -11,24 +15,24 @@ Record sampled := mkSampled {
 
 Definition sam_new (mc : Z) (n : nat) : sampled := mkSampled mc 0 [] n.
 
-Definition sam_room_left (s : sampled) (c : Z) : Z := smax s - (sused s + c).
+Definition sam_room_left (s : sampled) (c : Z) : Z := w64 (smax s - w64 (sused s + c)).
 
 (** [increment_hashed_key]: insert or replace; only the difference to a replaced cost is added *)
 Definition sam_increment (s : sampled) (k c : Z) : sampled :=
   match find k (scosts s) with
-  | Some prev => mkSampled (smax s) (sused s + (c - prev)) (set_val k c (scosts s)) (ssamples s)
-  | None => mkSampled (smax s) (sused s + c) ((k, c) :: scosts s) (ssamples s)
+  | Some prev => mkSampled (smax s) (w64 (sused s + w64 (c - prev))) (set_val k c (scosts s)) (ssamples s)
+  | None => mkSampled (smax s) (w64 (sused s + w64 (c - 0))) ((k, c) :: scosts s) (ssamples s)
   end.
 
 Definition sam_update (s : sampled) (k c : Z) : sampled * bool :=
   match find k (scosts s) with
-  | Some prev => (mkSampled (smax s) (sused s + (c - prev)) (set_val k c (scosts s)) (ssamples s), true)
+  | Some prev => (mkSampled (smax s) (w64 (sused s + w64 (c - prev))) (set_val k c (scosts s)) (ssamples s), true)
   | None => (s, false)
   end.
 
 Definition sam_remove (s : sampled) (k : Z) : sampled * option Z :=
   match find k (scosts s) with
-  | Some c => (mkSampled (smax s) (sused s - c) (remove_key k (scosts s)) (ssamples s), Some c)
+  | Some c => (mkSampled (smax s) (w64 (sused s - c)) (remove_key k (scosts s)) (ssamples s), Some c)
   | None => (s, None)
   end.
 
